@@ -174,6 +174,12 @@ def handle : DrvHandler := fun op args =>
       let ress ← (← jArr? ress).mapM resource?
       some (ok (.arr (sels.map (fun s =>
         Json.str (String.ofList (ress.map (fun r => if s.check r then '1' else '0'))))).toArray))
+  | "C15.route", [sels, hist] => do
+      -- one selector instance over a history of discoveries: the outcome at every step
+      let sels ← (← jArr? sels).mapM selector?
+      let hist ← (← jArr? hist).mapM resource?
+      some (ok (.arr (sels.map (fun s =>
+        Json.str (String.ofList ((s.route hist).map (fun b => if b then '1' else '0'))))).toArray))
   | "C15.grid", [hs, cs] => do
       let hs ← handlers? hs
       let cs ← (← jArr? cs).mapM cause?
